@@ -219,3 +219,38 @@ for _pid, _extra in {
  'C19': 'Round 6: the writer table follows aliases of the meta dictionary; the json.dumps probe must sit in a try inside the per-entry loop; a reader path without a meta entry may return early.',
 }.items():
     ADDENDA[_pid] = (ADDENDA.get(_pid, '') + ' ' + _extra).strip()
+
+
+# --- rounds 7-8: scenario tables decided by interpretation (rule RS and the numbered rules that use a table as their decision procedure), frozen defaults (RD) ----------
+_RS = ('Scenario tables (RS): the function is interpreted - our own interpreter of the Python subset the library uses, on abstract arrays with symbolic values, label tokens '
+       'and NumPy reduced to shape rules; the library is never imported or run - on each listed argument form, and the rendered outcome (axes, symbolic values, or the refusal) is '
+       'compared with a frozen, reviewed table; refusals are compared modulo the exception type unless the property names it. The listed forms are the claim, not all inputs. ')
+for _pid, _extra in {
+ 'C04': _RS + 'Tables: operation() (scalar / ndarray / array operands, placeholder and single-label dimensions, empty dimension, operands of different dimensions), transpose, broadcast, reshape; '
+        'align() re-index step (R7) decided by interpretation on abstract arrays: every mismatching dimension of every array re-indexed on the common axis, options handed on, private result list. Frozen defaults of the entry points (RD).',
+ 'C05': _RS + 'Tables: DimArray.__init__ (every documented way of giving axes, mismatching sizes / counts / duplicate names refused), _init_axes, from_nested, is_array1d_equiv, Axis.set, set_axis, '
+        'the dims setters of arrays and Datasets, stack. Axes methods are the repository\'s own (append with its duplicate test) in every scenario. Frozen defaults (RD).',
+ 'C06': _RS + 'Tables: _get_aligned_axes (what sort=True returns and what it leaves of the inputs\' own axes, a lone axis, an empty axis next to a full one, three inputs); align() re-index step (R3) by interpretation. '
+        'Slice steps computed from the end labels are evaluated per ordering. Frozen defaults (RD).',
+ 'C07': 'reindex_like (R4) is decided by interpretation on an abstract array whose reindex_axis records dimension, labels and options (templates with the dimensions in other orders, subsets, an Axes object, equal labels in another order). '
+        'A reindex pipeline that no longer goes through take_axis / put is answered ANALYSIS-ERROR. Frozen defaults (RD).',
+ 'C08': _RS + 'Table: flatten (shared with C11).',
+ 'C09': 'diff with the order handed to NumPy, argmin / argmax not through apply_along_axis are answered ANALYSIS-ERROR (forms the rules do not read). Frozen defaults (RD).',
+ 'C10': _RS + 'Tables: transpose, swapaxes, rollaxis (every start position), squeeze (NumPy\'s rule modelled on the shape), newaxis, repeat, broadcast, reshape; squeeze (R2) and rollaxis (R1) are decided by their tables. Frozen defaults (RD).',
+ 'C11': _RS + 'Tables: flatten (all subsets and orders of 1-d to 3-d arrays, insert=), unflatten, reshape (several groups, new and dropped dimensions), grouped labels (_flatten, MultiAxis) on small concrete label lists; '
+        'a single-pass flatten and the grouping step of reshape are decided by the tables. Frozen defaults (RD).',
+ 'C12': _RS + 'Tables: stack, concatenate (permuted and rotated dimension orders, differing labels with and without align=True, dict / tuple inputs), stack_ds, concatenate_ds, _get_aligned_axes; '
+        'the refusal of mismatching labels is compared with its exception type (ValueError). Frozen defaults (RD).',
+ 'C13': _RS + 'Tables: rename_keys, rename_axes, Axis.set, set_axis, the dims setters (what every variable sees afterwards); align() re-index step (R7) by interpretation. Frozen defaults (RD).',
+ 'C14': _RS + 'Tables: Dataset arithmetic (_binary_op / _rbinary_op / _unary_op: which variable meets which operand, differing labels, partly other keys; decides R1), _apply_dimarray_axis and the reductions built on it, stack_ds / concatenate_ds. '
+        'The relabelling of positions that were not found must not depend on method=. Frozen defaults (RD).',
+ 'C15': _RS + 'Table: rename_keys (operand afterwards). The effect analysis resolves `self` in a method of an abstract base to the subclasses\' members and lets the class a method resolves to decide which copy() made its receiver.',
+ 'C16': 'cumsum / cumprod installed as descriptors are read like sum / mean (apply_along_axis carries the attrs). Frozen defaults (RD).',
+ 'C17': 'An argsort helper that sorts with sorted() in an arrangement the rule does not know is answered ANALYSIS-ERROR. Frozen defaults (RD).',
+ 'C18': 'The interpolated axis may be addressed by the caller\'s axis, its resolved position / name, or as the only axis of a 1-d array; floor / truncation / ceil casts in any equivalent spelling. Frozen defaults (RD).',
+ 'C19': 'The metadata may be copied and pruned (dict(attrs) then del) or built entry by entry; the stored shape may be skipped exactly when the values already have it; no test on the content of the nested lists may decide whether the shape is used.',
+ 'C01': 'The presence test of a label list in either spelling (any mismatch / all found). Frozen defaults (RD).',
+ 'C02': 'The direction of the axis may be asked through any of the ordered-ness predicates (is_monotonic_equal, is_increasing_equal / is_decreasing_equal, end-label comparisons): all are answered from the same scenario. Frozen defaults (RD).',
+ 'C03': 'A writer may store through a local name bound to the widened array in the same statement; a write through a name bound before the array was replaced is reported (stale alias).',
+}.items():
+    ADDENDA[_pid] = (ADDENDA.get(_pid, '') + ' ' + _extra).strip()
